@@ -258,6 +258,12 @@ def gen_graph(rng: random.Random, big: bool = False) -> Dict[str, Any]:
         elems[src]['attrs'].append([gen_attr_name(rng, ctx, used[src]), 'ELEMENT', True, []])
     for e in elems:
         rng.shuffle(e['attrs'])
+    # elements whose 'name' attribute was deleted (Element.clear() / del elem['name'] leave this legal state: .name reads '')
+    if rng.random() < 0.15:
+        for e in elems:
+            if rng.random() < 0.5:
+                e['name'] = ''
+                e['nameless'] = True
     return {'elems': elems}
 
 
